@@ -12,7 +12,11 @@ import (
 	"bytes"
 	"encoding/json"
 	"fmt"
+	"sync"
 	"testing"
+	"time"
+
+	x509 "github.com/emmansun/gmsm/smx509"
 
 	"pgregory.net/rapid"
 )
@@ -24,7 +28,7 @@ type c07Case struct {
 	Param  int    `json:"param"`
 }
 
-var c07Behaviours = []string{"no-cert-msg", "empty", "trusted", "untrusted", "expired", "wrong-eku", "enc-untrusted", "enc-expired", "cv-omitted", "cv-otherkey", "cv-othertranscript", "cv-corrupt"}
+var c07Behaviours = []string{"no-cert-msg", "empty", "trusted", "untrusted", "expired", "wrong-eku", "enc-untrusted", "enc-expired", "cv-omitted", "cv-otherkey", "cv-othertranscript", "cv-corrupt", "cv-second-cert-key", "cv-encleaf-second-cert-key"}
 
 // c07Allows: the documented meaning of the six ClientAuthType constants, plus the standard's rule
 // that the ECDHE key exchange needs both client certificates.
@@ -55,10 +59,26 @@ func c07Allows(policy ClientAuthType, ecdhe bool, beh string) (complete bool, ve
 		if verifies && policy != RequireAndVerifyAnyKeyUsageClientCert {
 			return false, false
 		}
-	case "cv-omitted", "cv-otherkey", "cv-othertranscript", "cv-corrupt":
-		return false, false // whoever sends a certificate must prove possession of its key
+	case "cv-omitted", "cv-otherkey", "cv-othertranscript", "cv-corrupt", "cv-second-cert-key", "cv-encleaf-second-cert-key":
+		// whoever sends a certificate must prove possession of its key: the key of the certificate the
+		// server reports as the client's identity (the first one), not of some other certificate in the list
+		return false, false
 	}
 	return true, verifies
+}
+
+var (
+	c07AttOnce sync.Once
+	c07Att     Certificate
+)
+
+// c07Attacker: a certificate the attacker made for itself (own root, digitalSignature usage) with its key.
+func c07Attacker() Certificate {
+	c07AttOnce.Do(func() {
+		ca := vfNewCA("vf-attacker-root")
+		c07Att = ca.leaf(vfLeafOpt{cn: "attacker", eku: []x509.ExtKeyUsage{x509.ExtKeyUsageClientAuth}})
+	})
+	return c07Att
 }
 
 func c07Run(c c07Case) (sig, msg string) {
@@ -78,6 +98,13 @@ func c07Run(c c07Case) (sig, msg string) {
 		encC = p.CliEncB
 	case "enc-expired":
 		encC = p.CliEncExpired
+	case "cv-second-cert-key":
+		// somebody else's signing certificate followed by the attacker's own certificate
+		encC = c07Attacker()
+	case "cv-encleaf-second-cert-key":
+		// somebody else's encryption certificate (no digitalSignature usage) as the leaf
+		sigC, encC = p.CliEnc, c07Attacker()
+		sigC.PrivateKey = nil
 	}
 	pcfg := &Config{Time: vfTime, InsecureSkipVerify: true, CipherSuites: []uint16{c.Suite}, Certificates: []Certificate{sigC, encC}}
 	peerDone := false
@@ -122,6 +149,8 @@ func c07Run(c c07Case) (sig, msg string) {
 				err = cp.SendCertVerify(sigC.PrivateKey, over, false)
 			case "cv-corrupt":
 				err = cp.SendCertVerify(sigC.PrivateKey, nil, true)
+			case "cv-second-cert-key", "cv-encleaf-second-cert-key":
+				err = cp.SendCertVerify(encC.PrivateKey, nil, false)
 			default:
 				err = cp.SendCertVerify(sigC.PrivateKey, nil, false)
 			}
@@ -182,7 +211,8 @@ func c07Run(c c07Case) (sig, msg string) {
 type c07Hist struct {
 	Suite    uint16 `json:"suite"`
 	P1, P2   int
-	CliCerts int `json:"clicerts"` // 0 none, 1 trusted (A), 2 untrusted (B, forced through the callback)
+	CliCerts int `json:"clicerts"` // 0 none, 1 trusted (A), 2 untrusted (B, forced through the callback), 3 issued by A but extended key usage codeSigning only
+	Env2     int `json:"env2"`     // second configuration: 0 same roots and clock, 1 trusts only root B, 2 clock after the client certificate's expiry
 }
 
 func c07History(h c07Hist) (sig, msg string, resumed bool) {
@@ -192,6 +222,16 @@ func c07History(h c07Hist) (sig, msg string, resumed bool) {
 	mk := func(pol int) *Config {
 		return &Config{Time: vfTime, Certificates: []Certificate{p.SrvSig, p.SrvEnc}, CipherSuites: []uint16{h.Suite},
 			ClientAuth: ClientAuthType(pol), ClientCAs: p.A.pool, SessionCache: cache}
+	}
+	mk2 := func(pol int) *Config {
+		c := mk(pol)
+		switch h.Env2 {
+		case 1:
+			c.ClientCAs = p.B.pool
+		case 2:
+			c.Time = func() time.Time { return vfT0.AddDate(3, 0, 0) }
+		}
+		return c
 	}
 	ccfg := &Config{Time: vfTime, RootCAs: p.A.pool, ServerName: vfServerName, CipherSuites: []uint16{h.Suite}, SessionCache: NewLRUSessionCache(8)}
 	beh := "empty"
@@ -204,6 +244,18 @@ func c07History(h c07Hist) (sig, msg string, resumed bool) {
 		ccfg.GetClientCertificate = func(*CertificateRequestInfo) (*Certificate, error) { return &s, nil }
 		ccfg.GetClientKECertificate = func(*CertificateRequestInfo) (*Certificate, error) { return &e, nil }
 		beh = "untrusted"
+	case 3:
+		s, e := p.CliSigCodeSign, p.CliEncCodeSign
+		ccfg.GetClientCertificate = func(*CertificateRequestInfo) (*Certificate, error) { return &s, nil }
+		ccfg.GetClientKECertificate = func(*CertificateRequestInfo) (*Certificate, error) { return &e, nil }
+		beh = "wrong-eku"
+	}
+	if h.Env2 != 0 && h.CliCerts == 1 {
+		// offer the certificate whatever the server's acceptable-CA list says
+		s, e := p.CliSig, p.CliEnc
+		ccfg.Certificates = nil
+		ccfg.GetClientCertificate = func(*CertificateRequestInfo) (*Certificate, error) { return &s, nil }
+		ccfg.GetClientKECertificate = func(*CertificateRequestInfo) (*Certificate, error) { return &e, nil }
 	}
 	if h.CliCerts == 0 && ecdhe {
 		return "", "", false // an ECDHE client needs both key pairs even to offer the suite
@@ -223,8 +275,21 @@ func c07History(h c07Hist) (sig, msg string, resumed bool) {
 	if r1.SErr != nil {
 		return "", "", false
 	}
-	// connection 2: same client, server now under policy P2, same session cache
+	// connection 2: same client, server now under policy P2 (and possibly other roots / a later clock), same session cache
 	beh2 := beh
+	if h.CliCerts != 0 {
+		issuerTrusted := (h.CliCerts == 2) == (h.Env2 == 1)
+		switch {
+		case !issuerTrusted:
+			beh2 = "untrusted"
+		case h.Env2 == 2:
+			beh2 = "expired"
+		case h.CliCerts == 3:
+			beh2 = "wrong-eku"
+		default:
+			beh2 = "trusted"
+		}
+	}
 	if ClientAuthType(h.P2) == NoClientCert && !ecdhe {
 		beh2 = "no-cert-msg"
 	}
@@ -236,16 +301,16 @@ func c07History(h c07Hist) (sig, msg string, resumed bool) {
 		// no client certificate was presented: fine unless P2 requires one
 		p2AllowsConn1 = !requiresClientCert(pol2)
 	} else if pol2 >= VerifyClientCertIfGiven {
-		// a certificate was presented: a verifying policy needs it to chain to the client roots
-		p2AllowsConn1 = h.CliCerts == 1
+		// a certificate was presented: a verifying policy needs it to pass under the configuration now in use
+		p2AllowsConn1 = beh2 == "trusted" || (beh2 == "wrong-eku" && pol2 == RequireAndVerifyAnyKeyUsageClientCert)
 	}
-	r2 := vfRunPair(ccfg, mk(h.P2), vfPairOpt{})
+	r2 := vfRunPair(ccfg, mk2(h.P2), vfPairOpt{})
 	if r2.CPanic != "" || r2.SPanic != "" {
 		return "panic", r2.CPanic + r2.SPanic, false
 	}
 	if r2.SErr == nil && r2.SS.DidResume {
 		if !p2AllowsConn1 {
-			return "resumed-against-policy", fmt.Sprintf("session created under policy %d with client certs %d (%d peer certificates) was resumed under policy %d, which the original handshake would not have satisfied; server reports %d peer certificates", h.P1, h.CliCerts, len(r1.SS.PeerCertificates), h.P2, len(r2.SS.PeerCertificates)), true
+			return "resumed-against-policy", fmt.Sprintf("session created under policy %d with client certs %d (%d peer certificates) was resumed under policy %d (environment %d: the certificate is %q there), which the original handshake would not have satisfied; server reports %d peer certificates", h.P1, h.CliCerts, len(r1.SS.PeerCertificates), h.P2, h.Env2, beh2, len(r2.SS.PeerCertificates)), true
 		}
 		return "", "", true
 	}
@@ -352,26 +417,31 @@ func TestVF_C07(t *testing.T) {
 	for _, suite := range suites {
 		for p1 := 0; p1 <= 5; p1++ {
 			for p2 := 0; p2 <= 5; p2++ {
-				for cc := 0; cc <= 2; cc++ {
-					idx++
-					nh++
-					if !vfMine(idx) {
-						continue
+				for cc := 0; cc <= 3; cc++ {
+					for env2 := 0; env2 <= 2; env2++ {
+						if env2 != 0 && cc == 0 {
+							continue
+						}
+						idx++
+						nh++
+						if !vfMine(idx) {
+							continue
+						}
+						h := c07Hist{Suite: suite, P1: p1, P2: p2, CliCerts: cc, Env2: env2}
+						sig, msg, resumed := c07History(h)
+						if sig == "resumed-against-policy" && vfKnown("F6") {
+							rec.Excluded("F6")
+							continue
+						}
+						if sig != "" {
+							rec.Violation(sig, h, "%s", msg)
+						}
+						cl := "history:full"
+						if resumed {
+							cl = "history:resumed"
+						}
+						rec.Eval(p1 != p2 || env2 != 0, h, cl, fmt.Sprintf("env2:%d", env2))
 					}
-					h := c07Hist{Suite: suite, P1: p1, P2: p2, CliCerts: cc}
-					sig, msg, resumed := c07History(h)
-					if sig == "resumed-against-policy" && vfKnown("F6") {
-						rec.Excluded("F6")
-						continue
-					}
-					if sig != "" {
-						rec.Violation(sig, h, "%s", msg)
-					}
-					cl := "history:full"
-					if resumed {
-						cl = "history:resumed"
-					}
-					rec.Eval(p1 != p2, h, cl)
 				}
 			}
 		}
